@@ -313,7 +313,17 @@ class Resolver:
             outs = wrapped
         if len(outs) == 1:
             return outs[0][1]
-        return [('alt', [(self._label(f, x), v, self._conds(f, x)) for x, v in outs])]
+        return [('alt', self._order_alts([(self._label(f, x), v, self._conds(f, x)) for x, v in outs]))]
+
+    @staticmethod
+    def _order_alts(alts):
+        """the two arms of a test `c` are listed as [c holds, c does not hold] however the compiler laid the blocks out (an
+        `if c { A } else { B }` rewritten as `if !c { B } else { A }` is the same alternative)"""
+        if len(alts) == 2:
+            l0, l1 = alts[0][0], alts[1][0]
+            if l0.endswith('=False') and l1.endswith('=True') and l0[:-len('=False')] == l1[:-len('=True')]:
+                return [alts[1], alts[0]]
+        return alts
 
     def _conds(self, f, x):
         out = []
@@ -362,7 +372,7 @@ class Resolver:
                 if len(alts) == 1:
                     return alts[0][1]
                 if alts:
-                    return [('alt', alts)]
+                    return [('alt', self._order_alts(alts))]
             return [('hole', e0, ty)]
         if k == 'call':
             path = e[1]
@@ -393,7 +403,7 @@ class Resolver:
                 if de[0] == 'tuple' and int(e[2]) < len(de[1]):
                     alts.append((self._label(f, {'block': d[0], 'span': d[4]}), self.value(f, de[1][int(e[2])], depth + 1), self._conds(f, {'block': d[0]})))
             if alts and len(alts) == len(f.defs().get(l, [])):
-                return [('alt', alts)] if len(alts) > 1 else alts[0][1]
+                return [('alt', self._order_alts(alts))] if len(alts) > 1 else alts[0][1]
         if k == 'agg':
             if e[1].endswith(('Result::Ok', 'Option::Some')) and e[2]:
                 return self.value(f, e[2][0][1], depth + 1)
